@@ -78,8 +78,9 @@ type zzC06Vec struct {
 }
 
 type zzC06Header struct {
-	Names  [][]string `json:"names"`
-	QNames []int      `json:"qnames"`
+	Names  [][]string      `json:"names"`
+	QNames []int           `json:"qnames"`
+	Serve  []zzC06ServeRow `json:"serve"`
 }
 
 type zzC06RawVec struct {
@@ -171,23 +172,69 @@ func zzC06DecodeVerdicts(
 
 var zzC06PassOnly = []zzC06Out{{R: "pass", Canon: []string{}, IPs: []string{}, Up: true}}
 
-// zzC06Serve is the observation the specification expects for outcome o
-// (Serve of RewritesCore.tla), in the vocabulary of zzC06Obs.
-func zzC06Serve(o *zzC06Out, h []string, qt string) (e zzC06Obs) {
-	e = zzC06Obs{Ask: [][2]string{}, Rcode: "NOERROR", QOK: true, IPs: []string{}}
+// zzC06ServeRow is one row of Serve of RewritesCore.tla as evaluated by TLC
+// (header vector): for a kind of outcome ("pass", "up": canonical name resolved
+// upstream, "local": answered from the table) and a behaviour of the upstream
+// towards the name asked, who is asked ("h0", "canon", "none"), whose upstream
+// records are appended, and the reply code.
+type zzC06ServeRow struct {
+	Kind   string `json:"kind"`
+	Mode   string `json:"mode"`
+	Ask    string `json:"ask"`
+	FromUp string `json:"fromup"`
+	Rcode  string `json:"rcode"`
+	CNAME  bool   `json:"cname"`
+}
+
+// zzC06ServeRows is set from the header of the vector file.
+var zzC06ServeRows []zzC06ServeRow
+
+// zzC06Serve is the observation the specification expects for outcome o when
+// the upstream behaves as mode says (Serve), in the vocabulary of zzC06Obs.
+func zzC06Serve(o *zzC06Out, h []string, qt string, mode func(name string) (m string)) (e zzC06Obs) {
+	e = zzC06Obs{Ask: [][2]string{}, QOK: true, IPs: []string{}, Rcode: "no row of Serve"}
+	kind, asked := "local", ""
 	switch {
 	case o.R == "pass":
-		e.Ask = [][2]string{{zzC06Name(h), qt}}
-		e.FromUp = zzC06Name(h)
-		// The reply code of a passed request is the upstream's; the mock
-		// always answers NOERROR.
+		kind, asked = "pass", zzC06Name(h)
 	case o.Up:
-		e.Ask = [][2]string{{zzC06Name(o.Canon), qt}}
-		e.CNAME = zzC06Name(o.Canon)
-		e.FromUp = zzC06Name(o.Canon)
-	default:
-		e.CNAME = zzC06Name(o.Canon)
-		e.IPs = o.IPs
+		kind, asked = "up", zzC06Name(o.Canon)
+	}
+
+	m := "answer"
+	if asked != "" {
+		m = mode(asked)
+	}
+
+	sym := func(s string) (name string) {
+		switch s {
+		case "h0":
+			return zzC06Name(h)
+		case "canon":
+			return zzC06Name(o.Canon)
+		default:
+			return ""
+		}
+	}
+
+	for _, r := range zzC06ServeRows {
+		if r.Kind != kind || r.Mode != m {
+			continue
+		}
+
+		if a := sym(r.Ask); a != "" {
+			e.Ask = [][2]string{{a, qt}}
+		}
+
+		e.FromUp, e.Rcode = sym(r.FromUp), r.Rcode
+		if kind != "pass" {
+			// The CNAME record of a followed rewrite is always there.
+			e.CNAME = zzC06Name(o.Canon)
+		}
+
+		if kind == "local" {
+			e.IPs = o.IPs
+		}
 	}
 
 	return e
@@ -314,8 +361,12 @@ func zzC06Spell(s string, variant int) (r string) {
 // zzC06Upstream answers every question with records derived from the
 // question name and logs the questions.
 type zzC06Upstream struct {
-	mu  sync.Mutex
-	log [][2]string
+	mu   sync.Mutex
+	seed int64
+	// epoch changes with every table, so that over a run every name meets
+	// every behaviour of the upstream.
+	epoch int
+	log   [][2]string
 	// data maps the textual data of every record ever served to the name it
 	// was served for.
 	data map[string]string
@@ -335,10 +386,52 @@ func zzC06UpData(name string, qt uint16) (s string) {
 	}
 }
 
+func (u *zzC06Upstream) setEpoch(e int) {
+	u.mu.Lock()
+	defer u.mu.Unlock()
+
+	u.epoch = e
+}
+
+// mode is what the upstream does when asked for name (seeded): it answers
+// five names out of eight, has no data for one, says that one does not exist
+// and fails for one.
+func (u *zzC06Upstream) mode(name string) (m string) {
+	h := fnv.New32a()
+	u.mu.Lock()
+	epoch := u.epoch
+	u.mu.Unlock()
+	_, _ = h.Write([]byte(fmt.Sprintf("%d/%d/%s", u.seed, epoch, strings.ToLower(name))))
+	switch h.Sum32() % 8 {
+	case 5:
+		return "nodata"
+	case 6:
+		return "nxdomain"
+	case 7:
+		return "servfail"
+	default:
+		return "answer"
+	}
+}
+
 func (u *zzC06Upstream) Exchange(req *dns.Msg) (resp *dns.Msg, err error) {
 	q := req.Question[0]
 	name := strings.ToLower(strings.TrimSuffix(q.Name, "."))
 	data := zzC06UpData(name, q.Qtype)
+	switch m := u.mode(name); m {
+	case "nodata", "nxdomain", "servfail":
+		u.mu.Lock()
+		u.log = append(u.log, [2]string{name, dns.TypeToString[q.Qtype]})
+		u.mu.Unlock()
+
+		resp = (&dns.Msg{}).SetReply(req)
+		resp.RecursionAvailable = true
+		resp.Rcode = map[string]int{
+			"nodata": dns.RcodeSuccess, "nxdomain": dns.RcodeNameError, "servfail": dns.RcodeServerFailure,
+		}[m]
+
+		return resp, nil
+	}
 
 	u.mu.Lock()
 	u.log = append(u.log, [2]string{name, dns.TypeToString[q.Qtype]})
@@ -404,12 +497,17 @@ type zzC06Srv struct {
 	cur      []zzC06RW
 	// updates counts the tables reached by updates in place.
 	updates int
+	// f and fconf: the filter and the object it was created with, which is
+	// also what its configuration is saved into.
+	f     *filtering.DNSFilter
+	fconf *filtering.Config
+	saves int
 }
 
 func zzC06NewSrv(t *testing.T, conc *zzC06Conc) (z *zzC06Srv) {
 	z = &zzC06Srv{
 		conc:     conc,
-		ups:      &zzC06Upstream{data: map[string]string{}},
+		ups:      &zzC06Upstream{data: map[string]string{}, seed: zzSeed()},
 		handlers: map[string]http.HandlerFunc{},
 	}
 
@@ -418,7 +516,15 @@ func zzC06NewSrv(t *testing.T, conc *zzC06Conc) (z *zzC06Srv) {
 		BlockedServices:      &filtering.BlockedServices{Schedule: schedule.EmptyWeekly()},
 		BlockingMode:         filtering.BlockingModeDefault,
 		DataDir:              t.TempDir(),
-		ConfigModified:       func() {},
+		// home.onConfigModified -> config.write -> filters.WriteDiskConfig with
+		// the very *Config the filter was created with: every change through
+		// the API is followed by a save.
+		ConfigModified: func() {
+			if z.f != nil {
+				z.saves++
+				z.f.WriteDiskConfig(z.fconf)
+			}
+		},
 		HTTPRegister: func(method, url string, h http.HandlerFunc) {
 			z.handlers[method+" "+url] = h
 		},
@@ -428,6 +534,8 @@ func zzC06NewSrv(t *testing.T, conc *zzC06Conc) (z *zzC06Srv) {
 	if err != nil {
 		t.Fatalf("filtering.New: %v", err)
 	}
+
+	z.f, z.fconf = f, fconf
 
 	f.SetEnabled(true)
 	f.RegisterFilteringHandlers()
@@ -671,7 +779,7 @@ func zzC06SameObs(e, g *zzC06Obs, passed bool) (ok bool) {
 		}
 	}
 
-	if g.Rcode != "NOERROR" || len(e.IPs) != len(g.IPs) {
+	if g.Rcode != e.Rcode || len(e.IPs) != len(g.IPs) {
 		return false
 	}
 
@@ -684,9 +792,9 @@ func zzC06SameObs(e, g *zzC06Obs, passed bool) (ok bool) {
 	return true
 }
 
-func zzC06Admissible(outs []zzC06Out, h []string, qt string, g *zzC06Obs) (ok bool) {
+func (z *zzC06Srv) admissible(outs []zzC06Out, h []string, qt string, g *zzC06Obs) (ok bool) {
 	for i := range outs {
-		e := zzC06Serve(&outs[i], h, qt)
+		e := zzC06Serve(&outs[i], h, qt, z.ups.mode)
 		if zzC06SameObs(&e, g, outs[i].R == "pass") {
 			return true
 		}
@@ -738,6 +846,11 @@ func TestZZVerifC06Pipeline(t *testing.T) {
 				t.Fatalf("bad header: %v", err)
 			}
 
+			if len(hdr.Serve) == 0 {
+				t.Fatalf("header without the Serve table")
+			}
+
+			zzC06ServeRows = hdr.Serve
 			qs = nil
 			for _, qi := range hdr.QNames {
 				for _, qt := range []string{"A", "AAAA", "TXT"} {
@@ -760,6 +873,7 @@ func TestZZVerifC06Pipeline(t *testing.T) {
 		}
 
 		n++
+		z.ups.setEpoch(n)
 		idOrder := make([]int, len(v.Tab))
 		for i := range idOrder {
 			idOrder[i] = i
@@ -822,11 +936,16 @@ func TestZZVerifC06Pipeline(t *testing.T) {
 				name := zzC06Spell(zzC06Name(q.h), n+oi+qi)
 				got, ok := z.query(name, zzC06QTypes[q.qt], 3*time.Second)
 				evals++
-				if ok && zzC06Admissible(want, q.h, q.qt, &got) {
+				if ok && z.admissible(want, q.h, q.qt, &got) {
 					for i := range want {
-						e := zzC06Serve(&want[i], q.h, q.qt)
+						e := zzC06Serve(&want[i], q.h, q.qt, z.ups.mode)
 						if zzC06SameObs(&e, &got, false) {
-							classes[zzC06Class(&want[i])]++
+							cl := zzC06Class(&want[i])
+							if len(e.Ask) == 1 {
+								cl += ":" + z.ups.mode(e.Ask[0][0])
+							}
+
+							classes[cl]++
 
 							break
 						}
@@ -840,11 +959,11 @@ func TestZZVerifC06Pipeline(t *testing.T) {
 				// alone with a long bound.
 				rec := map[string]any{
 					"tab": tab, "order": order, "table": rws, "h": q.h, "qt": q.qt, "query": name, "cased": cased,
-					"want": want, "prev_table": prev, "qs": zzC06QueryPairs(qs),
+					"want": want, "prev_table": prev, "qs": zzC06QueryPairs(qs), "seed": zzSeed(), "epoch": n,
 				}
 				exp := []zzC06Obs{}
 				for i := range want {
-					exp = append(exp, zzC06Serve(&want[i], q.h, q.qt))
+					exp = append(exp, zzC06Serve(&want[i], q.h, q.qt, z.ups.mode))
 				}
 
 				rec["expected"] = exp
@@ -869,7 +988,7 @@ func TestZZVerifC06Pipeline(t *testing.T) {
 				case !ok2:
 					hangs++
 					rec["kind"], rec["got"] = "hang", got2
-				case zzC06Admissible(want, q.h, q.qt, &got2):
+				case z.admissible(want, q.h, q.qt, &got2):
 					if !ok {
 						// Only slow the first time.
 						slow++
@@ -904,7 +1023,7 @@ func TestZZVerifC06Pipeline(t *testing.T) {
 	w.put(map[string]any{
 		"kind": "summary", "vectors": n, "orderings": orders, "evals": evals, "bad": bad, "hangs": hangs,
 		"flaky": flaky, "slow": slow, "setup_errors": setupErrs, "classes": classes,
-		"tables_reached_by_update": z.updates,
+		"tables_reached_by_update": z.updates, "saves": z.saves,
 	})
 }
 
@@ -1041,6 +1160,7 @@ func TestZZVerifC06PipeTrace(t *testing.T) {
 
 	prevQS := [][]any{}
 	for ti := 0; ti < ntab && !hung; ti++ {
+		z.ups.setEpoch(ti + 1)
 		tab, pool := zzC06BTable(rng)
 		if ti%3 == 2 && len(z.cur) > 0 {
 			// Every third table has the size of its predecessor, so that it
@@ -1112,8 +1232,30 @@ func TestZZVerifC06PipeTrace(t *testing.T) {
 			qs = append(qs, rec)
 		}
 
+		// What the upstream does for the names it can be asked for (only those
+		// that are not simply answered).
+		upm := [][]any{}
+		seen := map[string]bool{}
+		note := func(ls []string) {
+			name := strings.ToLower(zzC06Name(ls))
+			if m := z.ups.mode(name); !seen[name] && m != "answer" && name != "" {
+				seen[name] = true
+				upm = append(upm, []any{zzC06Split(name), m})
+			}
+		}
+		for _, q := range qs {
+			note(q["h"].([]string))
+		}
+
+		for i := range tab {
+			if tab[i].K == "cname" {
+				note(tab[i].T)
+			}
+		}
+
 		w.put(map[string]any{
-			"lvl": "pipe", "tab": tab, "qs": qs, "table": rws, "prev_table": prev, "prev_qs": prevQS,
+			"lvl": "pipe", "tab": tab, "qs": qs, "table": rws, "prev_table": prev, "prev_qs": prevQS, "upm": upm,
+			"epoch": ti + 1,
 		})
 		prevQS = [][]any{}
 		for _, q := range qs {
@@ -1146,7 +1288,13 @@ type zzC06ProbeIn struct {
 		CNAME  []string            `json:"cname"`
 		IPs    []string            `json:"ips"`
 		FromUp []string            `json:"fromup"`
+		Rcode  string              `json:"rcode"`
 	} `json:"expect"`
+	// Expected are admissible observations in concrete form (as recorded by
+	// the replay with a disagreement).
+	Expected []zzC06Obs `json:"expected"`
+	// Epoch selects the behaviour of the mock upstream for the final query.
+	Epoch int `json:"epoch"`
 }
 
 // TestZZVerifC06PipeProbe sends every input line's query alone, after setting
@@ -1183,14 +1331,10 @@ func TestZZVerifC06PipeProbe(t *testing.T) {
 			in.Query = zzC06Name(in.H)
 		}
 
-		exp := []zzC06Obs{}
-		for j := range in.Want {
-			exp = append(exp, zzC06Serve(&in.Want[j], in.H, in.QT))
-		}
-
+		exp := append([]zzC06Obs{}, in.Expected...)
 		for _, e := range in.Expect {
 			o := zzC06Obs{
-				Ask: [][2]string{}, Rcode: "NOERROR", QOK: true, CNAME: zzC06Name(e.CNAME),
+				Ask: [][2]string{}, Rcode: e.Rcode, QOK: true, CNAME: zzC06Name(e.CNAME),
 				FromUp: zzC06Name(e.FromUp), IPs: append([]string{}, e.IPs...),
 			}
 			sort.Strings(o.IPs)
@@ -1255,6 +1399,7 @@ func TestZZVerifC06PipeProbe(t *testing.T) {
 			t.Fatalf("setting table: %v", err)
 		}
 
+		z.ups.setEpoch(in.Epoch)
 		got, ok := z.query(in.Query, zzC06QTypes[in.QT], 15*time.Second)
 		if !ok {
 			hung = true
